@@ -130,7 +130,7 @@ def SUB(choices, dest="subcommand", required=True):
 
 
 FLAT = [["arg", "a", "int", True], ["arg", "b", "int", False]]
-GROUP = [["arg", "g.u", "int", True], ["arg", "g.v", "str", False], ["arg", "g.h.w", "int", True]]
+GROUP = [["arg", "g.uno", "int", True], ["arg", "g.vol", "str", False], ["arg", "g.h.wid", "int", True]]
 DCARG = [["arg", "pt", "Pt", False], ["arg", "out", "Outer", False]]
 OPTDC = [["arg", "opt", ["Optional", "Pt"], False]]
 CLASSGROUP = [["classgroup", "cg", "Grp"]]
@@ -162,7 +162,7 @@ SHAPES = {
     "unions": P(UNIONS),
     "nested-containers": P(NESTED),
     # a parser used as an argument (ActionParser): its arguments become a group of the outer parser
-    "parser-group": P([["parser", "inner", P(FLAT + [["arg", "g.u", "int", True], ["arg", "pt", "Pt", False]])], ["arg", "b", "int", False]]),
+    "parser-group": P([["parser", "inner", P(FLAT + [["arg", "g.uno", "int", True], ["arg", "pt", "Pt", False]])], ["arg", "b", "int", False]]),
     # required subcommands two levels deep; required arguments inside subcommands; group / dataclass / class nodes
     # below a subcommand section
     "subcommands": P(
@@ -173,7 +173,7 @@ SHAPES = {
                     [["arg", "f", "int", True], ["arg", "fo", "int", False]],
                     SUB(
                         {
-                            "run": P([["arg", "r", "int", True], ["arg", "g.u", "int", True], ["arg", "pt", "Pt", False]]),
+                            "run": P([["arg", "r", "int", True], ["arg", "g.uno", "int", True], ["arg", "pt", "Pt", False]]),
                             "dry": P([["arg", "d", "int", False], ["arg", "obj", "Leaf", True]]),
                         },
                         dest="mode",
@@ -480,7 +480,7 @@ def foreign_names(path, node, value, alts):
     """[(tag, name)] - the foreign key names tried at one node.  "never": a name no parser level defines; the others
     are names that ARE defined elsewhere (own key of the node, a key of a child node, a parameter of a sibling
     class, the reserved word init_args) but not at this node."""
-    defined = defined_keys(node, value) | {"dict_kwargs", "__path__", "config"}
+    defined = defined_keys(node, value) | NOT_FOREIGN
     out = [("never", FOREIGN)]
     own = [p for p in path if isinstance(p, str)]
     if own and own[-1] not in defined:
@@ -503,15 +503,52 @@ def foreign_names(path, node, value, alts):
     return out
 
 
-def mutations(schema, cfg, subpath=(), rich=False, values=(1,)):
+NOT_FOREIGN = {"dict_kwargs", "__path__", "config"}  # escape hatch / metadata keys: never used as foreign keys
+
+
+def related_names(node, value, every=False):
+    """[(tag, name)] - foreign key names that are *spelling neighbours* of a key the node defines:
+
+      "truncated"  a defined key without its last letter  (`yaw` -> `ya`, `class_path` -> `class_pat`): a proper
+                   textual prefix of a defined key that is not itself defined at the node
+      "extended"   a defined key plus one letter          (`yaw` -> `yawq`): a defined key is a proper prefix of it
+
+    every=False: one name per class - derived from the first defined key of >= 3 letters that yields an undefined
+    name (else the first of 2 letters); every=True: one name per class and defined key."""
+    defined = defined_keys(node, value)
+    keys = [k for k in _ordered_keys(node) if k not in NOT_FOREIGN]
+    ok = lambda name: name and name not in defined and name not in NOT_FOREIGN  # noqa: E731
+    trunc, ext = [], []
+    for k in sorted(keys, key=lambda k: 0 if len(k) >= 3 else 1):
+        if ok(k[:-1]) and k[:-1] not in trunc:
+            trunc.append(k[:-1])
+        if ok(k + "q") and k + "q" not in ext:
+            ext.append(k + "q")
+    if not every:
+        trunc, ext = trunc[:1], ext[:1]
+    return [("truncated", n) for n in trunc] + [("extended", n) for n in ext]
+
+
+def _ordered_keys(node):
+    if node["k"] == "spec":
+        return ["class_path", "init_args"]
+    keys = list(node["fields"])
+    if node.get("subs"):
+        keys += [node["subs"]["dest"], *node["subs"]["choices"]]
+    return keys
+
+
+def mutations(schema, cfg, subpath=(), rich=False, values=(1,), related=True, related_every=False):
     """Every single-position mutation of a valid configuration:
-    ["foreign", path, kind, name, value]    insert a foreign key into the mapping at `path`
+    ["foreign", path, kind, name, value(, name class)]  insert a foreign key into the mapping at `path`; the name
+                                            class is given for the spelling neighbours of related_names()
     ["remove" | "null", path + [key], kind] remove / null one required key
     ["leftover", [depth], kind, form]       (argv only) tokens no parser defines, at one subcommand depth
     Required keys: keys flagged required, group-like keys with a required key below them, a required subcommand
     (its selector key; the settings sections go with it, otherwise the library legitimately infers the selection
     from the section that is present - that rule is C17's).
-    rich=False: foreign key "zzq" with every value in `values`.  rich=True: every name of foreign_names() x values {1, None, {"x": 1}}."""
+    rich=False: foreign key "zzq" with every value in `values`.  rich=True: every name of foreign_names() x values {1, None, {"x": 1}}.
+    related=True: additionally the spelling neighbours of related_names() (one per class; related_every: per defined key), value 1."""
     out = []
     for path, node, value, label, ctx, alts in walk(schema, cfg):
         kind = label if label == "top" else f"{label}@{ctx}"
@@ -522,6 +559,9 @@ def mutations(schema, cfg, subpath=(), rich=False, values=(1,)):
         else:
             for fvalue in values:
                 out.append(["foreign", list(path), kind, FOREIGN, fvalue])
+        if related:
+            for tag, name in related_names(node, value, every=related_every):
+                out.append(["foreign", list(path), kind, name, 1, tag])
         if node["k"] != "rec":
             continue
         for name, (child, req) in node["fields"].items():
